@@ -9,6 +9,21 @@ and *within the list*) x every conflict clause of the family below x execution
 mode (row by row / executemany / executemany+RETURNING (insertmanyvalues
 batches) / executemany+RETURNING sort_by_parameter_order).
 
+Column-type alphabet: ``v`` is a plain Integer, or (table variant ``bx``, 5 clauses ``...@bx`` on the sqlite and pg
+routes) a TypeDecorator with a SQL-level ``bind_expression()`` (stored value = bound value + 3; no
+column_expression, so the table, ``excluded.v`` and RETURNING show the stored value).  The model applies the same
+offset wherever a Python value is bound against the column (inserted values, a literal or a per-row ``bindparam()``
+in DO UPDATE SET) and nowhere else.
+
+Cache-order sub-space (route ``sqlite-cache``, history of statements on ONE compiled cache): for 5 clause shapes whose
+SET dictionary holds a plain Python value (``{v: x}``, ``{w: excluded.w + 1, v: x}``, with / without WHERE, one
+SQLite two-clause chain), x, y in {None, 7, 999}: a statement with value x in {None, 7} is compiled first on a private
+compiled cache (for every parameter shape the mode uses); then separately built, same-shaped statements with value y
+(all 3) are executed on that cache for every existing-row set (<= 1 row quick / <= 2 rows thorough) x parameter list
+(<= 2 rows) x 5 modes.  Each execution is judged by the model AND must equal the same statement on a fresh cache (error
+or not, final table, RETURNING rows).  That the statements really share a cache entry is measured (counter
+``cache_entries_added_after_warmup`` must be 0).
+
 Oracle: an insert-or-update reference model (a dict of rows, constraints id and
 k, clauses tried against the violated constraints; DO UPDATE evaluates its SET
 expressions and WHERE on the old row and ``excluded``; three-valued logic for
@@ -57,6 +72,12 @@ Mutations caught (each in a private copy, VF_REPO=/tmp/wt-dml):
   6. dialects/mysql/base.py: ``_parameter_ordering`` ignored (ordered list
      rendered in table order)
   7. dialects/sqlite/base.py: SET target rendered from ``c.key`` instead of ``c.name``
+  8. (seeded C56-a) sql/compiler.py visit_bindparam: the ``has_upsert_bound_parameters`` detection moved below the
+     bind_expression branch - a per-row SET parameter on a column whose type has bind_expression() is batched
+     (``table-state: ... clause=DU(k,param,none)@bx mode=many_ret``, sqlite and pg routes)
+  9. (seeded C56-b) dialects/sqlite/base.py visit_on_conflict_do_update: a plain None in set_ rendered as inline NULL
+     - the compiled form is reused for same-shaped statements with a value (``cache-order-dependence: route=sqlite
+     first-on-cache=set_ v=None clause=DU(k,lit=7,gt) ...``)
 """
 from __future__ import annotations
 
@@ -87,21 +108,26 @@ META = dict(
     design_ref="DESIGN.md §5 C56",
     level_text="Every existing-row set (<=2 rows) x parameter list (<=2 quick / <=3 thorough rows) over a 3x3 key domain x every "
     "clause of the family (DO NOTHING: no target / id / k / partial-index target; DO UPDATE: target id|k x 8 set_ shapes x 3 WHERE "
-    "shapes, constraint names, SQLite multi-clause chains) x 5 execution modes is executed and compared with the model. Complete "
-    "for the bound.",
+    "shapes, constraint names, SQLite multi-clause chains; 5 clauses on a column whose type has a bind_expression()) x 5 execution "
+    "modes is executed and compared with the model. Cache-order sub-space: 5 literal-in-SET clause shapes x first-compiled value "
+    "{None, 7} x executed value {None, 7, 999} on one compiled cache x existing (<=1 quick / <=2 thorough rows) x parameter list "
+    "(<=2 rows) x 5 modes, each judged by the model and compared with the run on a fresh cache. Complete for the bound.",
     level_note="Trusted: the model (60 lines), the MySQL clause reader, SQLite as executor of the shared ON CONFLICT grammar. No "
     "PostgreSQL/MySQL server: PostgreSQL text runs on SQLite (PostgreSQL's 'cannot affect row a second time' restriction for a "
     "row hit twice by one multi-VALUES statement is therefore not modelled); MySQL is model-interpreted only.",
-    rule="case = (table variant, existing rows, parameter list, clause chain, route, mode); non-trivial = at least one parameter row "
+    rule="case = (table variant, existing rows, parameter list, clause chain, route, mode[, value compiled first on the cache]); non-trivial = at least one parameter row "
     "conflicts with an existing row or with an earlier row of the list",
     assumptions=[
         "SQL semantics of ON CONFLICT: the clause whose target constraint is violated decides; an uncovered violated constraint raises",
         "when two different violated constraints are each covered by a clause the engine may pick either (set of allowed worlds)",
+        "the outcome of an upsert statement does not depend on which same-shaped statement was compiled first on the engine's cache",
         "MySQL ON DUPLICATE KEY UPDATE assigns left to right, later assignments see earlier ones; with two conflicting rows either may be updated",
     ],
     bounds=dict(
-        quick="existing sets <=2 rows (28), parameter lists <=2 rows (90; MySQL route <=3 rows, 819), full clause family (59 chains + 10 MySQL forms), 5 modes, 3 routes",
-        thorough="existing sets <=2 rows (28), parameter lists <=3 rows (819), full clause family, 5 modes, 3 routes",
+        quick="existing sets <=2 rows (28), parameter lists <=2 rows (90; MySQL route <=3 rows, 819), full clause family (64 chains incl. 5 on a bind_expression() column + 10 MySQL forms), 5 modes, 3 routes; "
+        "cache-order: 5 shapes x 2 first-compiled x 3 executed values x existing <=1 row (10) x parameter lists <=2 rows (90) x 5 modes, each also on a fresh cache",
+        thorough="existing sets <=2 rows (28), parameter lists <=3 rows (819), full clause family, 5 modes, 3 routes; "
+        "cache-order: as quick with existing sets <=2 rows (28)",
     ),
 )
 SHARD_TIMEOUT = dict(quick=300, thorough=1800)
@@ -132,7 +158,30 @@ T_PART = Table(
     Column("w", Integer),
 )
 Index("ix_c56p_k", T_PART.c.k, unique=True, sqlite_where=T_PART.c.w == 0, postgresql_where=T_PART.c.w == 0)
-TABLES = {"plain": T_PLAIN, "partial": T_PART}
+
+BX_OFF = 3
+
+
+class PlusInt(sa.TypeDecorator):
+    """column type of the alphabet with a SQL-level bind_expression(): every value bound against the column is stored + BX_OFF
+    (no column_expression: reads, ``excluded.v`` and RETURNING see the stored value)"""
+
+    impl = Integer
+    cache_ok = True
+
+    def bind_expression(self, bindvalue):
+        return bindvalue + sa.literal_column(str(BX_OFF))
+
+
+T_BX = Table(
+    "c56b", MD,
+    Column("id", Integer, primary_key=True, autoincrement=False),
+    Column("k", Integer),
+    Column("v", PlusInt, key="vk"),
+    Column("w", Integer),
+    UniqueConstraint("k", name="uq_c56b_k"),
+)
+TABLES = {"plain": T_PLAIN, "partial": T_PART, "bx": T_BX}
 CONSTRAINT_COLS = {"uq_c56t_k": "k", "c56t_pkey": "id"}
 
 # ------------------------------------------------------------------ expression AST (shared by model and builders)
@@ -193,6 +242,14 @@ SETS = {
     "param": [("v", "key", ("param", "nv"))],
     "cross": [("v", "key", ("col", "w")), ("w", "key", ("exc", "v"))],
 }
+# same-shaped statements: the SET dictionary differs only in the plain Python value (equal statement cache keys)
+LITV = (None, 7, 999)
+PAIR_SETS = {}
+for _val in LITV:
+    PAIR_SETS["lit=%r" % (_val,)] = [("v", "key", ("lit", _val))]
+    PAIR_SETS["lit2=%r" % (_val,)] = [("w", "key", ("add", ("exc", "w"), ("lit", 1))), ("v", "key", ("lit", _val))]
+SETS_ALL = dict(SETS)
+SETS_ALL.update(PAIR_SETS)
 WHERES = {"none": None, "gt": ("gt", ("exc", "v"), ("col", "v")), "w0": ("eq", ("col", "w"), ("lit", 0))}
 
 
@@ -215,6 +272,9 @@ def clause_family():
     for sname, wname in (("exc", "none"), ("sum", "gt"), ("two", "w0")):
         fam.append(("DU(k|w=0,%s,%s)" % (sname, wname), "partial", [cl("update", "k", sname, wname, index_where=True)], both))
     fam.append(("DU(id,exc,none)@partial", "partial", [cl("update", "id", "exc", "none")], both))
+    # column v typed with a bind_expression(): Python values in SET (literal / per-row parameter) and excluded references
+    for tgt, sname, wname in (("k", "lit", "none"), ("k", "param", "none"), ("id", "param", "gt"), ("id", "lit", "w0"), ("k", "exc", "gt")):
+        fam.append(("DU(%s,%s,%s)@bx" % (tgt, sname, wname), "bx", [cl("update", tgt, sname, wname)], both))
     # PostgreSQL constraint names
     fam.append(("DN(constraint uq)", "plain", [cl("nothing", "k", constraint="uq_c56t_k")], ("pg",)))
     fam.append(("DU(constraint uq,exc,gt)", "plain", [cl("update", "k", "exc", "gt", constraint="uq_c56t_k")], ("pg",)))
@@ -238,9 +298,9 @@ def _violated(rows, new, variant):
     for r in rows:
         if r["id"] == new["id"]:
             out["id"] = r
-    if variant == "plain" or new["w"] == 0:
+    if variant != "partial" or new["w"] == 0:
         for r in rows:
-            if r["k"] == new["k"] and (variant == "plain" or r["w"] == 0):
+            if r["k"] == new["k"] and (variant != "partial" or r["w"] == 0):
                 out["k"] = r
     return out
 
@@ -271,8 +331,11 @@ def model_apply(world, new, params, chain, variant):
                 nw = (rows, ret + [None])
             else:
                 upd = dict(old)
-                for col, _, ast in SETS[cl["set"]]:
-                    upd[col] = ev(ast, old, new, params)
+                for col, _, ast in SETS_ALL[cl["set"]]:
+                    val = ev(ast, old, new, params)
+                    if variant == "bx" and col == "v" and ast[0] in ("lit", "param") and val is not None:
+                        val += BX_OFF  # a Python value bound against the column passes bind_expression()
+                    upd[col] = val
                 nrows = tuple(upd if r is old else r for r in rows)
                 # the update itself must not break uniqueness (we never assign id / k; w may change under the partial index)
                 if variant == "partial" and upd["w"] == 0 and any(r is not upd and r["k"] == upd["k"] and r["w"] == 0 for r in nrows):
@@ -294,6 +357,8 @@ def _canon_world(w):
 def model_run(existing, plist, pparams, chain, variant):
     """-> ('ok', [worlds]) | ('error', index of failing row, worlds before)"""
     worlds = [(tuple(dict(r) for r in existing), [])]
+    if variant == "bx":
+        plist = [dict(p, v=p["v"] + BX_OFF) for p in plist]  # inserted values pass bind_expression()
     for i, (new, prm) in enumerate(zip(plist, pparams)):
         nxt = []
         err = 0
@@ -362,7 +427,7 @@ def build_insert(dialect, table, chain):
             ins = ins.on_conflict_do_nothing(**kw)
         else:
             set_ = {}
-            for col, kstyle, ast in SETS[cl["set"]]:
+            for col, kstyle, ast in SETS_ALL[cl["set"]]:
                 key = {"key": "vk" if col == "v" else col, "name": col, "col": table.c["vk" if col == "v" else col]}[kstyle]
                 e = build_expr(ast, table, ins.excluded)
                 set_[key] = ast[1] if ast[0] == "lit" else e
@@ -397,11 +462,14 @@ class Route:
         return sorted((tuple(r) for r in self.conn.exec_driver_sql("SELECT id, k, v, w FROM %s" % table.name)), key=repr)
 
 
-def run_sqlite(route, fam, existing, plist, mode):
-    """-> dict(error=..., rows=[...], returned=list or None, per_row=bool)"""
+def run_sqlite(route, fam, existing, plist, mode, exec_opts=None, tag=""):
+    """-> dict(error=..., rows=[...], returned=list or None, per_row=bool)
+    exec_opts: execution options of the call (the cache-order sub-space passes compiled_cache=<its own dict>);
+    tag: distinguishes separately built, same-shaped statement objects"""
     name, variant, chain, _ = fam
     table = TABLES[variant]
-    key = ("sqlite", name, mode)
+    key = ("sqlite", name, mode, tag)
+    eo = exec_opts or {}
     st = route.cache.get(key)
     if st is None:
         ins = build_insert("sqlite", table, chain)
@@ -422,7 +490,7 @@ def run_sqlite(route, fam, existing, plist, mode):
                 ret = []
                 for i, p in enumerate(params):
                     out["failed_at"] = i
-                    r = conn.execute(st, p)
+                    r = conn.execute(st, p, execution_options=eo)
                     if mode == "rows_ret":
                         got = [tuple(x) for x in r.all()]
                         if len(got) > 1:
@@ -433,7 +501,7 @@ def run_sqlite(route, fam, existing, plist, mode):
                 if mode == "rows_ret":
                     out["returned"] = ret
             else:
-                r = conn.execute(st.execution_options(insertmanyvalues_page_size=2), params if len(params) > 1 else params[0])
+                r = conn.execute(st.execution_options(insertmanyvalues_page_size=2), params if len(params) > 1 else params[0], execution_options=eo)
                 if mode != "many":
                     out["returned"] = [tuple(x) for x in r.all()]
     except sa_exc.DBAPIError as e:
@@ -802,6 +870,76 @@ def mysql_case(fam, alias, existing, plist, comp_cache):
     return []
 
 
+# ------------------------------------------------------------------ cache-order sub-space (sqlite route, compiled cache)
+# History shape: on ONE compiled cache a statement with SET value x is compiled first (for every parameter shape the
+# mode uses), then separately built same-shaped statements with SET value y are executed for every data point.  Every
+# execution is judged by the model, and its observation must equal that of the same statement on a fresh cache.
+
+PAIR_SHAPES = {
+    # name -> (target, set shape, where, extra trailing clause)
+    "DU(k,lit=*,none)": ("k", "lit", "none", None),
+    "DU(k,lit=*,gt)": ("k", "lit", "gt", None),
+    "DU(id,lit=*,w0)": ("id", "lit", "w0", None),
+    "DU(id,lit2=*,none)": ("id", "lit2", "none", None),
+    "DU(k,lit=*,none)+DN(id)": ("k", "lit", "none", "id"),
+}
+
+
+def pair_fam(shape, val):
+    tgt, sshape, wname, extra = PAIR_SHAPES[shape]
+    sname = "%s=%r" % (sshape, val)
+    chain = [dict(action="update", target=tgt, set=sname, where=wname, index_where=False, constraint=None, tstyle="col")]
+    if extra:
+        chain.append(dict(action="nothing", target=extra, set=None, where=None, index_where=False, constraint=None, tstyle="col"))
+    return (shape.replace("=*", "=%r" % (val,)), "plain", chain, ("sqlite",))
+
+
+def _first_repr(first):
+    return "fresh" if first == "fresh" else "set_ v=%r" % (first,)
+
+
+def warm_cache(route, shape, first, mode):
+    """-> compiled cache in which the statement with SET value `first` was compiled first for both parameter shapes of `mode`"""
+    cache = {}
+    if first == "fresh":
+        return cache
+    fam = pair_fam(shape, first)
+    one = (dict(id=1, k=10, v=NEW_V[0], w=NEW_W[0]),)
+    two = one + (dict(id=2, k=20, v=NEW_V[1], w=NEW_W[1]),)
+    for plist in (one, two):
+        if mode.startswith("many") and len(plist) == 1 and mode != "many_ret":
+            continue
+        obs = run_sqlite(route, fam, (), plist, mode, exec_opts={"compiled_cache": cache}, tag="warm")
+        if obs["error"] is not None:
+            raise AssertionError("warm-up failed: %r" % (obs["error"],))
+    return cache
+
+
+def _obs_key(obs, mode):
+    """what the property speaks about: an error or not (the table inside the failed, not yet rolled back transaction is
+    not asserted - a batched and a row-at-a-time executemany legitimately differ there), final table, RETURNING rows (a
+    multiset unless parameter order was requested)"""
+    if obs["error"] is not None:
+        return (type(obs["error"]).__name__, None, None)
+    ret = obs["returned"]
+    if ret is not None and mode == "many_ret":
+        ret = sorted(ret, key=repr)
+    return (None, obs["rows"], ret)
+
+
+def pair_case(route, shape, first, val, existing, plist, mode, cache):
+    """-> (fam, obs, problems): statement with SET value `val` on `cache` (None: fresh) vs model and vs a fresh cache"""
+    fam = pair_fam(shape, val)
+    obs = run_sqlite(route, fam, existing, plist, mode, exec_opts={"compiled_cache": {} if cache is None else cache})
+    probs = judge(fam, existing, plist, mode, obs, "sqlite")
+    if cache is not None:
+        ref = run_sqlite(route, fam, existing, plist, mode, exec_opts={"compiled_cache": {}})
+        if _obs_key(ref, mode) != _obs_key(obs, mode):
+            probs = [("cache-order-dependence", "first compiled on the cache: %s; this statement (set_ v=%r) on that cache -> error=%r table=%r returning=%r; "
+                      "on a fresh cache -> error=%r table=%r returning=%r" % ((_first_repr(first), val) + _obs_key(obs, mode) + _obs_key(ref, mode)))]
+    return fam, obs, probs
+
+
 # ------------------------------------------------------------------ driver
 
 MODES = ("rows", "rows_ret", "many", "many_ret", "many_ret_sorted")
@@ -814,7 +952,13 @@ def shards(tier, seed):
             out.append([d, f[0]])
     for f in MYSQL_FAMILY:
         out.append(["mysql", f[0]])
+    for shape in PAIR_SHAPES:
+        for first in FIRSTS:
+            out.append(["sqlite-cache", shape, first])
     return out
+
+
+FIRSTS = (None, 7)  # SET value of the statement compiled first on the shared cache (JSON-able); every case also runs on a fresh cache
 
 
 def _conflicting(existing, plist):
@@ -831,6 +975,8 @@ def _case(route_name, fname, existing, plist, mode):
 
 
 def _sig(kind, c):
+    if c["route"] == "sqlite-cache":
+        return "%s: route=sqlite first-on-cache=%s clause=%s mode=%s existing=%s params=%s" % (kind, _first_repr(c["first"]), c["clause"], c["mode"], c["existing"], c["params"])
     if kind == "index_where-refused-by-executemany":
         return "%s: route=%s any ON CONFLICT clause with index_where=<expression with a bound value>, >=2 parameter sets" % (kind, c["route"])
     return "%s: route=%s clause=%s mode=%s existing=%s params=%s" % (kind, c["route"], c["clause"], c["mode"], c["existing"], c["params"])
@@ -843,6 +989,8 @@ def _from_case(c):
 
 
 def run_shard(shard, tier, rec):
+    if shard[0] == "sqlite-cache":
+        return run_pair_shard(shard, tier, rec)
     dname, fname = shard
     maxlen = 2 if tier == "quick" else 3
     exs = existing_sets()
@@ -892,7 +1040,55 @@ def run_shard(shard, tier, rec):
         route.close()
 
 
+def run_pair_shard(shard, tier, rec):
+    _, shape, first = shard
+    exs = [e for e in existing_sets() if len(e) <= (1 if tier == "quick" else 2)]
+    route = Route()
+    try:
+        caches = {mode: (None if first == "fresh" else warm_cache(route, shape, first, mode)) for mode in MODES}
+        warm_sizes = {mode: (0 if c is None else len(c)) for mode, c in caches.items()}
+        for existing in exs:
+            for plist in param_lists(2):
+                nt = _conflicting(existing, plist)
+                for mode in MODES:
+                    if mode.startswith("many") and len(plist) == 1 and mode != "many_ret":
+                        continue
+                    for val in LITV:
+                        fam, obs, probs = pair_case(route, shape, first, val, existing, plist, mode, caches[mode])
+                        c = _case("sqlite-cache", shape, existing, plist, mode)
+                        c["first"] = first
+                        c["value"] = val
+                        c["clause"] = fam[0]
+                        rec.case(("sqlite-cache", shape, repr(first), repr(val), repr(c["existing"]), repr(c["params"]), mode), nontrivial=nt)
+                        rec.outcome(("sqlite-cache", shape, mode, repr(val), "error" if obs["error"] else len([r for r in (obs["returned"] or []) if r is not None]), len(obs["rows"])))
+                        for kind, detail in probs:
+                            rec.violation(_sig(kind, c), detail, c, kind=(kind, "sqlite-cache", mode))
+        # same-shapedness is measured, not assumed: every later statement must have hit an entry compiled during warm-up
+        grown = sum(len(c) - warm_sizes[m] for m, c in caches.items() if c is not None)
+        if first != "fresh":
+            rec.count("cache_entries_from_warmup", sum(warm_sizes.values()))
+            rec.count("cache_entries_added_after_warmup", grown)
+            if grown:
+                rec.note("cache-order sub-space: %d statements were NOT same-shaped with the first compiled one (shape %s)" % (grown, shape))
+    finally:
+        route.close()
+
+
+def replay_pair(case):
+    existing, plist = _from_case(case)
+    shape = [sh for sh in PAIR_SHAPES if pair_fam(sh, case["value"])[0] == case["clause"]][0]
+    route = Route()
+    try:
+        cache = None if case["first"] == "fresh" else warm_cache(route, shape, case["first"], case["mode"])
+        _, _, probs = pair_case(route, shape, case["first"], case["value"], existing, plist, case["mode"], cache)
+    finally:
+        route.close()
+    return [(_sig(k, case), d) for k, d in probs]
+
+
 def replay(case):
+    if case["route"] == "sqlite-cache":
+        return replay_pair(case)
     existing, plist = _from_case(case)
     if case["route"].startswith("mysql"):
         fam = [f for f in MYSQL_FAMILY if f[0] == case["clause"]][0]
